@@ -65,6 +65,10 @@ func dbsimGen(r *rand.Rand, mode string, thorough bool) dbCase {
 			}
 		}
 		prog = append(prog, genProgram(r, nkeys, nops, getFrac, delFrac)...)
+		if r.Intn(5) == 0 && len(prog) > 2 {
+			// a single very large value (far beyond the memstore limit and the buffers)
+			prog[len(prog)/2] = dbOp{Kind: "put", Key: r.Intn(nkeys), ValLen: pick(r, 5000, 50000, 300000)}
+		}
 		if mode == "lineage" && r.Intn(2) == 0 {
 			// one big early value so that the oldest table exceeds the size limit
 			prog = append([]dbOp{{Kind: "put", Key: 0, ValLen: int(opts.MaxSize) + 100}, {Kind: "put", Key: 1 % nkeys, ValLen: 40}}, prog...)
